@@ -14,6 +14,8 @@ TXT = {
  "C03": "Same exhaustive search; the set of live keys lost by each transition (scan before minus scan after at one clock reading) must be empty, or exactly the erased key, or exactly one victim of an insert of a new key into a full cache whose residents are all live.",
  "C04": "Exhaustive search over the four TTL containers with a link-time virtual clock stepped onto, just before and 1 ns around every model deadline; every lookup form and the scan must never return a key whose model deadline (latest successful write + TTL in force) is <= now.",
  "C05": "Same search; every key whose model deadline is still in the future and that was not erased/cleared/legitimately evicted must be returned; deadlines restart on every successful write with the TTL supplied/configured, update_ttl leaves existing deadlines alone.",
+ "C06": "Preemption-bounded stateless exploration of real threads on the real container under a serialising scheduler (choice points at every operation invocation and every lock acquisition, found by interposing pthread_mutex_lock): every multiset of 2-3 per-thread programs of 1-2 operations over a per-container concurrency alphabet (single and range forms, clean, dynamically_age, update_ttl, clear, observers; keys forced to collide) from a catalogue of pre-states (empty, half, full, full with an expired / age-stale entry). For every complete schedule the recorded results plus public probes (size/scan, then - on re-execution - eviction order and expiry/aging behaviour) must equal those of some sequential order of the same operations, consistent with per-thread and real-time order, run on the same implementation; a range that is not atomic has no witness order; deadlock is a violation.",
+ "C07": "The same exploration under ThreadSanitizer: for every container every unordered pair of public member functions (self pairs, observers and update_ttl included) from every catalogued pre-state, all schedules, plus 2x2 / 3x1 programs; the scheduler translation unit is uninstrumented and hands off by raw futex so it adds no happens-before edges and the detector stays sighted; each report is attributed to the program, schedule and the two access stacks.",
  "C08": "The same exhaustive search run under AddressSanitizer + UBSan + libstdc++ debug mode (checked iterators) with an instance-counting, canary-carrying heap-owning value type; after every replay the container is destroyed and the live-instance count must be back to baseline. Explores behind functional deviations too (model re-synchronised from the scan) so latent memory errors after a logic bug are still reached.",
  "C09": "Exhaustive search with all three allow values on every key in every reachable state (absent, live, erased, evicted, expired-unreaped, exactly at expiry), single and range inserts; returned bools/counts and the resulting scan are compared with the model; a per-key 'rejected insert pending' flag attributes later value/deadline drift to the rejected call.",
  "C10": "Exhaustive search of lru/tlru/utlru; model recency sequence (insert, successful update, successful non-peek lookup incl. range forms and duplicates); on every evicting insert with all residents live the lost key must be the model's least recent.",
@@ -28,10 +30,22 @@ TXT = {
  "C19": "Product search: from every reachable state and every call that turned out to be a peek lookup, a missing lookup, a rejected insert or an erase of an absent key, A = state + call, B = state; the pair is explored to fixpoint with all outputs compared (TTL containers: size()/clean count not compared, update-only insert / erase addressed to a key already expired at the root may differ).",
  "C20": "Product search for utlru/ut_map: from every reachable state A = state + clear(), B = a newly constructed container with the same capacity and the TTL currently configured; size()==0, empty scan, then pair exploration to fixpoint.",
 }
+E2_NOTE = ("Bounded: <= 3 threads x <= 2 operations, capacity 2, 3 colliding keys, preemption bound 2 for the longer programs (all schedules for 2x1 and 3x1), "
+           "clock constant while calls overlap. Trusted: glibc symbol interposition of pthread_mutex_lock/unlock, the serialising scheduler (src/vsched.c), sanitizer runtimes; "
+           "schedule points at synchronisation operations only (complete for data-race-free code, which C07 establishes); sequential consistency.")
 checks = []
 for p in props:
     pid = p["id"]
     if pid not in TXT:
+        continue
+    if pid in ("C06", "C07"):
+        checks.append({
+            "property_id": pid, "quick_cmd": "bin/check %s quick" % pid, "thorough_cmd": "bin/check %s thorough" % pid,
+            "evidence_file": "evidence/%s.json" % pid, "replay_cmd_template": "bin/replay {path}", "engine": "schedmc",
+            "level_claimed": {"category": "model_checking", "text": TXT[pid], "design_ref": "DESIGN.md section 4 and section 5 (%s)" % pid},
+            "level_note": E2_NOTE,
+            "technique": "stateless preemption-bounded model checking of real threads under a controlled scheduler" + (" + happens-before race detection per execution" if pid == "C07" else " + brute-force linearizability check per schedule"),
+        })
         continue
     checks.append({
         "property_id": pid,
@@ -55,10 +69,10 @@ m = {
            "enable": "no source hooks exist: the clock (link-time steady_clock::now), the rr generator (-fno-access-control), and locks (symbol interposition) are owned from the harness; -DCAPPUCCINO_VERIF_HOOKS is passed to every harness build anyway",
            "baseline_off_cmd": "cmake -G Ninja -S /repo -B /repo/_build && cmake --build /repo/_build && ctest --test-dir /repo/_build -j8 --timeout 900",
            "source_commits": [], "add_only": True},
- "engines": [{"name": "seqmc", "path": "src/seqmc.cpp", "serves_properties": sorted(TXT), "kind_free_text": "explicit-state search (BFS over operation histories replayed on fresh real containers, state = canonical white-box dump + reference-model state), product search for differential properties"}],
+ "engines": [{"name": "schedmc", "path": "src/schedmc.cpp + src/vsched.c", "serves_properties": ["C06", "C07"], "kind_free_text": "stateless DFS over thread schedules of the real container with a serialising futex scheduler and interposed lock operations; iterative preemption bounding"}, {"name": "seqmc", "path": "src/seqmc.cpp", "serves_properties": sorted(k for k in TXT if k not in ("C06", "C07")), "kind_free_text": "explicit-state search (BFS over operation histories replayed on fresh real containers, state = canonical white-box dump + reference-model state), product search for differential properties"}],
  "checks": checks,
  "not_applicable": na,
- "notes": "fix: commits in /repo: b691f9b (rr), ac6da05 (lfuda), 3e216ef (utlru), a466aac (ut_map/ut_set); see known_findings.txt and DESIGN.md",
+ "notes": "fix: commits in /repo: b691f9b (rr), ac6da05 (lfuda), 3e216ef (utlru), a466aac (ut_map/ut_set), 0fe9fa3 (observers/update_ttl locked), 105edd7 (pre-lock reads); see known_findings.txt and DESIGN.md",
 }
 json.dump(m, open(os.path.join(V, "MANIFEST.json"), "w"), indent=1)
 print("checks:", len(checks), "not_applicable:", len(na))
